@@ -16,14 +16,14 @@ from typing import Any
 import numpy as np
 import scipp as sc
 
-from .._utils import as_float_type
+from .._utils import elem_dtype
 from ..chopper import DiskChopper
 
 
 def wavelength_to_inverse_velocity(wavelength):
     h = sc.constants.h
     m_n = sc.constants.m_n
-    return as_float_type((wavelength * m_n / h).to(unit='s/m'), wavelength)
+    return (wavelength * m_n / h).to(unit='s/m')
 
 
 def propagate_times(
@@ -47,7 +47,12 @@ def propagate_times(
         Propagated time.
     """
     inverse_velocity = wavelength_to_inverse_velocity(wavelength)
-    return time + (distance * inverse_velocity).to(unit=time.unit, copy=False)
+    result = time + (distance * inverse_velocity).to(unit=time.unit, copy=False)
+    # The constant m_n/h promotes every operand to double precision. Return single
+    # precision only if all operands are single precision.
+    if all(elem_dtype(x) == sc.DType.float32 for x in (time, wavelength, distance)):
+        return result.astype(sc.DType.float32, copy=False)
+    return result
 
 
 class Subframe:
